@@ -6,7 +6,8 @@ package run
 //vf:job C17 quick VF_C17_Decode kind=0..5 par=1..2
 //vf:job C17 quick VF_C17_DecodeMany par=1..2
 //vf:job C17 thorough VF_C17_DecodeMany par=3
-//vf:replayE C17 VF_C17_Decode VF_C17_DecodeMany
+//vf:job C17 quick VF_C17_DecodeBig par=2
+//vf:replayE C17 VF_C17_Decode VF_C17_DecodeMany VF_C17_DecodeBig
 //vf:opt C17 preempt=1 thorough_preempt=2 delaybound=1
 //vf:stub C17 encoding/json.Marshal: contract model (flat struct -> {"tag":value,...} in field order, strings NOT escaped, integers decimal, error iff a float is NaN/Inf as documented); utils.OpenReadFile/OpenWriteFile and (*os.File).Write/Close: in-memory output; utils.NewRDBLoader: pre-filled closed channel (the parser is C01); time.After: never fires
 //vf:assume C17 base64 on the specification side is encoding/base64 of the standard library (trusted); scores are compared through the trusted FormatFloat/ParseFloat round trip
@@ -307,4 +308,58 @@ func VF_C17_DecodeMany() {
 	}
 	vfAssert(nlua == 2, "each Lua script must be printed exactly once")
 	vfAssertTwin(len(lines) == 0, "twin")
+}
+
+// built once per worker (package initialisation), not once per path
+var vfBigScript = func() []byte {
+	script := make([]byte, 1<<20+4096)
+	for i := range script {
+		script[i] = 'x'
+	}
+	script[0], script[len(script)-1] = 'A', 'Z'
+	return script
+}()
+
+// an entry whose text is larger than a megabyte next to a small one, two workers: the output is
+// the two renderings one after the other in either order, never interleaved
+func VF_C17_DecodeBig() {
+	key := vfBytes("key", 2)
+	small, _ := vfMakeEntry(0, key, 3, 0)
+	// the small key alone gives its line
+	conf.Options.Parallel = 1
+	p1 := make(chan *rdb.BinEntry, 1)
+	p1 <- small
+	close(p1)
+	vfDecodeEnv(p1)
+	(&CmdDecode{}).decode("in", "out")
+	S := append([]byte{}, vfOut...)
+	vfAssert(len(S) > 0 && S[len(S)-1] == '\n', "line of the small key")
+	// a Lua script of 1 MiB + 4 KiB and the small key through two workers
+	script := vfBigScript
+	conf.Options.Parallel = vfParam("par", 2)
+	p2 := make(chan *rdb.BinEntry, 2)
+	if vfPick("order", 2) == 0 {
+		p2 <- &rdb.BinEntry{DB: 0, Key: []byte("lua"), Type: rdb.RdbFlagAUX, Value: script}
+		p2 <- small
+	} else {
+		p2 <- small
+		p2 <- &rdb.BinEntry{DB: 0, Key: []byte("lua"), Type: rdb.RdbFlagAUX, Value: script}
+	}
+	close(p2)
+	vfDecodeEnv(p2)
+	(&CmdDecode{}).decode("in", "out")
+	out := vfOut
+	head := []byte(`{"type":"aux","key":"lua","value64":"A`)
+	nL := len(head) - 1 + len(script) + 3
+	vfAssert(len(out) == len(S)+nL, "output size differs from the two renderings")
+	if len(out) != len(S)+nL {
+		return
+	}
+	luaAt := func(o int) bool {
+		return vfEqBytes(out[o:o+len(head)], head) && vfEqBytes(out[o+nL-4:o+nL], []byte("Z\"}\n"))
+	}
+	smallFirst := vfAnd(vfEqBytes(out[:len(S)], S), luaAt(len(S)))
+	luaFirst := vfAnd(luaAt(0), vfEqBytes(out[nL:], S))
+	vfAssert(vfOr(smallFirst, luaFirst), "the text of a large entry was interleaved with another entry's line")
+	vfAssertTwin(len(out) == 0, "twin")
 }
